@@ -66,8 +66,11 @@ def run_rule(r, tier, only_config=None):
     seen_inst = set()
     seen_v = set()
     configs = r.configs
-    if tier == "quick" and len(configs) > 2:
-        pass
+    if tier == "thorough" and tuple(configs) == ("default",):
+        # the thorough tier repeats every feature-independent rule under each Cargo feature
+        # configuration the downstream compilers build (the cfg'd code differs between them)
+        from astlib import CONFIGS
+        configs = tuple(CONFIGS.keys())
     per_config_counts = {}
     for cfg in configs:
         if only_config and cfg != only_config:
